@@ -6,9 +6,14 @@ package main
 
 import (
 	"bytes"
+	"encoding/json"
 	"fmt"
+	"os"
+	"os/exec"
+	"path/filepath"
 	"sort"
 	"strings"
+	"sync"
 	"time"
 )
 
@@ -41,6 +46,15 @@ func genBatch(r *RNG, withBad bool, maxLines int) *Scenario {
 			w.Cfg.InitSelection = 1
 		}
 		sc.Worlds = append(sc.Worlds, w)
+	}
+	// stratum: user-defined crop codes (each world renames its first crop to a code of its own; the codes get the
+	// same per-run crop id, so anything that confuses runs by that id shows)
+	if r.Bool(0.3) {
+		for i, w := range sc.Worlds {
+			if len(w.Rot) > 1 {
+				w.CropAlias = map[string]string{w.Rot[1].Crop: "X" + string(rune('A'+i))}
+			}
+		}
 	}
 	nl := r.Range(2, maxLines)
 	if r.Bool(0.5) {
@@ -109,6 +123,9 @@ func (sc *Scenario) lineArgs(i int) []string {
 	bl := sc.Lines[i]
 	w := sc.Worlds[bl.World]
 	args := []string{"project=" + w.Loc, "plotNr=" + w.Plot, fmt.Sprintf("poligonID=L%02d", i), "fcode=" + w.FCode}
+	if len(w.CropAlias) > 0 {
+		args = append(args, "parameter=pcustom")
+	}
 	// later key=value tokens win in the run's argument map
 	return append(args, bl.Extra...)
 }
@@ -123,6 +140,9 @@ func materialiseBatch(sc *Scenario, env *Env, oc *OutputCfg) (string, error) {
 		if err := WriteFiles(root, w.Files(oc, ww), env.ParamDir); err != nil {
 			return "", err
 		}
+	}
+	if err := customParamFolder(root, env.ParamDir, sc.Worlds); err != nil {
+		return "", err
 	}
 	return root, nil
 }
@@ -158,13 +178,88 @@ type lineRef struct {
 	success bool
 	err     string
 	crashed string
+	died    bool // the reference process exited (log.Fatal): the line kills a process even when run alone
+	sameAs  int  // 1-based index of an earlier line with the same arguments (reference shared, output id renamed)
 }
 
-// soloReference executes line i alone in a fresh session (no scheduler).
+// renameFiles maps the result files of one output id to another (file names and the polygon id echoed inside).
+func renameFiles(files map[string][]byte, fromID, toID, fromPoly, toPoly string) map[string][]byte {
+	out := map[string][]byte{}
+	for n, d := range files {
+		out[strings.Replace(n, fromID, toID, 1)] = []byte(strings.ReplaceAll(string(d), fromPoly, toPoly))
+	}
+	return out
+}
+
+// soloReference executes line i alone: in a fresh process (default), so that nothing a previous run left in
+// package-level state of the model can reach it — exactly what "the same line run alone" means for a user —
+// or in this process in a fresh session (VERIF_INPROC_REF=1, used by the minimiser's inner loop only).
 func soloReference(sc *Scenario, env *Env, root string, i int) *lineRef {
+	if os.Getenv("VERIF_INPROC_REF") == "" {
+		if ref := freshReference(env, root, sc.lineArgs(i), outIDOf(sc, i)); ref != nil {
+			return ref
+		}
+	}
 	disk := NewSimDisk()
 	out := env.RunSingle(root, sc.lineArgs(i), nil, disk)
 	return &lineRef{files: outputsOf(disk, outIDOf(sc, i)), success: out.Success, err: out.Err, crashed: out.Panic}
+}
+
+type refResult struct {
+	Files   map[string][]byte `json:"files"`
+	Success bool              `json:"success"`
+	Err     string            `json:"err"`
+	Panic   string            `json:"panic"`
+}
+
+func freshReference(env *Env, root string, args []string, outID string) *lineRef {
+	outFile := filepath.Join(env.Scratch, fmt.Sprintf("ref-%d.json", time.Now().UnixNano()))
+	defer os.Remove(outFile)
+	ab, _ := json.Marshal(args)
+	cmd := exec.Command(os.Args[0], "-test.run", "^TestVerif$", "-test.timeout", "0")
+	cmd.Env = append(os.Environ(), "VERIF_MODE=ref", "VERIF_REF_ROOT="+root, "VERIF_REF_ARGS="+string(ab), "VERIF_REF_OUTID="+outID, "VERIF_OUT="+outFile, "VERIF_SCRATCH="+env.Scratch)
+	var eb bytes.Buffer
+	cmd.Stderr, cmd.Stdout = &eb, &eb
+	err := cmd.Run()
+	b, rerr := os.ReadFile(outFile)
+	if rerr != nil {
+		// the reference process died (log.Fatal in the model, or a panic): the line cannot run alone either
+		msg := firstLine(lastNonEmpty(eb.String()))
+		if err != nil && msg == "" {
+			msg = err.Error()
+		}
+		return &lineRef{files: map[string][]byte{}, success: false, err: "process exit: " + msg, died: true}
+	}
+	var rr refResult
+	if json.Unmarshal(b, &rr) != nil {
+		return nil
+	}
+	if rr.Files == nil {
+		rr.Files = map[string][]byte{}
+	}
+	return &lineRef{files: rr.Files, success: rr.Success, err: rr.Err, crashed: rr.Panic}
+}
+
+// refMain is the child side of freshReference.
+func refMain() int {
+	env, err := setupEnv()
+	if err != nil {
+		fmt.Fprintln(os.Stderr, "env:", err)
+		return 2
+	}
+	defer env.Close()
+	var args []string
+	if json.Unmarshal([]byte(os.Getenv("VERIF_REF_ARGS")), &args) != nil {
+		return 2
+	}
+	disk := NewSimDisk()
+	out := env.RunSingle(os.Getenv("VERIF_REF_ROOT"), args, nil, disk)
+	rr := refResult{Files: outputsOf(disk, os.Getenv("VERIF_REF_OUTID")), Success: out.Success, Err: out.Err, Panic: out.Panic}
+	b, _ := json.Marshal(rr)
+	if os.WriteFile(os.Getenv("VERIF_OUT"), b, 0o644) != nil {
+		return 2
+	}
+	return 0
 }
 
 func diffFiles(a, b map[string][]byte) string {
@@ -384,8 +479,45 @@ func execBatch(sc *Scenario, env *Env) *Result {
 		return res
 	}
 	refs := make([]*lineRef, len(sc.Lines))
+	if os.Getenv("VERIF_INPROC_REF") == "" {
+		// fresh-process references, a few at a time (identical argument lists share one reference run)
+		type job struct{ i int }
+		same := map[string]int{}
+		sem := make(chan struct{}, envInt("VERIF_REF_PAR", 4))
+		var wg sync.WaitGroup
+		for i := range sc.Lines {
+			key := fmt.Sprint(sc.Lines[i].World, "|", strings.Join(sc.Lines[i].Extra, " "))
+			if j, ok := same[key]; ok {
+				refs[i] = &lineRef{sameAs: j + 1}
+				continue
+			}
+			same[key] = i
+			wg.Add(1)
+			sem <- struct{}{}
+			go func(i int) {
+				defer wg.Done()
+				defer func() { <-sem }()
+				refs[i] = freshReference(env, root, sc.lineArgs(i), outIDOf(sc, i))
+			}(i)
+		}
+		wg.Wait()
+		for i := range refs {
+			if refs[i] != nil && refs[i].sameAs > 0 {
+				src := refs[refs[i].sameAs-1]
+				if src == nil {
+					refs[i] = nil
+					continue
+				}
+				cp := *src
+				cp.files = renameFiles(src.files, outIDOf(sc, refs[i].sameAs-1), outIDOf(sc, i), fmt.Sprintf("L%02d", refs[i].sameAs-1), fmt.Sprintf("L%02d", i))
+				refs[i] = &cp
+			}
+		}
+	}
 	for i := range sc.Lines {
-		refs[i] = soloReference(sc, env, root, i)
+		if refs[i] == nil {
+			refs[i] = soloReference(sc, env, root, i)
+		}
 		if refs[i].crashed != "" {
 			res.Status, res.Note = "crash", "reference run of line "+fmt.Sprint(i)+" panicked: "+shortPanic(refs[i].crashed)
 			res.WallMS = nowMS(t0)
